@@ -63,6 +63,15 @@ SHAPED += [
     (1, 4, 2, 2, 1, 2, [[(0, 0), (0, 1)], [(0, 2), (0, 3)]]),       # move into a block at max_block_size
     (2, 2, 2, 2, 2, 2, [[(0, 0), (0, 1)], [(1, 0), (1, 1)]]),       # everything tight on a 2x2 board
 ]
+# initial_blocks= that break a bound from the *other* side than the default start does (one block covering the board can only
+# have too few blocks / too large a block): too many blocks, a block below min_block_size.  Without allow_unmet_constraints_first
+# initial() must walk them into the bounds before handing anything out (round 13: an "all met?" test that only looked at the
+# two bounds the default start can break)
+SHAPED += [
+    (2, 2, 1, 2, 1, 4, [[(0, 0)], [(0, 1)], [(1, 0)], [(1, 1)]]),                            # four blocks, at most two allowed
+    (2, 3, 1, 6, 2, 6, [[(0, 0)], [(0, 1), (0, 2), (1, 2), (1, 1), (1, 0)]]),                  # a single cell, min_block_size 2
+    (1, 4, 1, 2, 2, 4, [[(0, 0)], [(0, 1)], [(0, 2), (0, 3)]]),                               # both at once on a one-line board
+]
 # allow_unmet_constraints_first=True: initial() hands out the given blocks although the block count is still below its minimum; what
 # candidates() proposes from there must still be partitions into connected blocks (8th element "unmet": the starting value itself is
 # only checked for that, the proposed values for everything but the lower count bound).  Rooms with a hub and arms (T, plus) have no
